@@ -166,6 +166,9 @@ def find_peaks(data, threshold, *, box_size=3, footprint=None, mask=None,
 
     peak_goodmask = (data == data_max)  # good pixels are True
 
+    # NaN pixels (replaced above by the minimum value) are never peaks
+    peak_goodmask = np.logical_and(peak_goodmask, ~nan_mask)
+
     # Exclude peaks that are masked
     if mask is not None:
         mask = np.asanyarray(mask)
